@@ -56,7 +56,8 @@ PAIRS = [('soap11', 'soap11'), ('soap12', 'soap12'), ('xml', 'xml'),
          ('json', 'json'), ('yaml', 'yaml'), ('msgpack', 'msgpack'),
          ('msgpackrpc', 'msgpackrpc'), ('httprpc', 'json')]
 STAGES = ['none', 'bytes', 'envelope', 'dispatch', 'argument', 'l_call',
-          'fn', 'l_ret', 'badreturn', 'genraise0', 'genraiseN']
+          'fn', 'l_ret', 'badreturn', 'genraise0', 'genraiseN', 'verb',
+          'charset']
 LEVELS = ['app', 'method', 'service']
 KINDS = ['fault_client', 'fault_server', 'fault_sub', 'not_found', 'custom',
          'key_error']
@@ -88,8 +89,8 @@ def gen_cases(tier, verif_seed):
             pr = pr % 3
         in_prot, out_prot = PAIRS[pr]
         if in_prot == 'httprpc' or st in ('badreturn', 'genraise0',
-                                                              'genraiseN'):
-            rt = 'wsgi'
+                                          'genraiseN', 'verb', 'charset'):
+            rt = 'wsgi'     # (verb and Content-Type only exist over HTTP)
         kind = rng.choice(KINDS)
         exc = ExcSpec.draw(rng, kind, seed)
         if out_prot == 'soap12' and 'code' in exc and \
@@ -166,6 +167,11 @@ def _rclass(case):
         return ['unknown']
     if st == 'argument':
         return ['invalid']
+    if st == 'verb':
+        return ['verb', ['GET', 'PUT', 'HEAD', 'DELETE'][case['variant']]]
+    if st == 'charset':
+        return ['charset', ['latin-1', 'bogus-charset', 'utf-16',
+                            'ascii'][case['variant']]]
     if st == 'badreturn':
         return ['badreturn']
     if st == 'genraise0':
